@@ -37,7 +37,7 @@ for p in patches:
     env = dict(os.environ, VERIF_REPO=SCR)
     # extract the facts of the patched tree once (three configurations in parallel), then run the checks in a pool
     pre = [subprocess.Popen([sys.executable, "-m", "engine.facts", cfg], cwd="/verif", env=env, stdout=subprocess.DEVNULL, stderr=subprocess.DEVNULL)
-           for cfg in ("std", "alloc", "core")]
+           for cfg in ("std", "alloc", "core", "std-rel")]
     for q in pre:
         q.wait()
 
